@@ -680,8 +680,10 @@ class C03(Prop):
                 "exactly the records that lie back to back in that section under the declarative reading of Spec/RecordSpec.v, in order, "
                 "returning on each the offset, raw owner name and its length, lower-cased dotted owner name, type, class, TTL, data length "
                 "and data of that reading, which is a function of the bytes; no Panic outcome (C03_walk_values, C03_reading_unique, "
-                "C03_copy_name_labels, C03_name_text, C03_skip_name_agrees, C03_walk_including_opt_total). PARTIAL: the OPT-skipping walk, "
-                "the question cursor and the EDNS option cursor are decided each run by the correspondence and the reference-decoder oracle.")
+                "C03_copy_name_labels, C03_name_text, C03_skip_name_agrees, C03_walk_including_opt_total); the OPT-skipping walk visits exactly "
+                "the non-OPT records of that reading with the same views (every record in the answer and authority sections) and its debug "
+                "assertions cannot fire; the question cursor yields the declaratively decoded question once (C03_walks, "
+                "C03_question_cursor). PARTIAL: the EDNS option cursor is decided each run by the correspondence and the oracle.")
     assumptions = ["bytes < 256"]
 
     def gen(self, rng, tier):
